@@ -112,6 +112,12 @@ func TestVerifC07Json(t *testing.T) {
 		{name: "json-escapes", dec: "json.reader", build: func(n int) []byte {
 			return []byte("\"" + strings.Repeat("\\\\", (n-2)/2) + "\"")
 		}},
+		// one long string literal makes the scanner grow its buffer to hold it; the buffer never
+		// shrinks, so the dense comments after it are each searched through a window of that size
+		{name: "json-big-token-then-dense", dec: "json.reader", build: func(n int) []byte {
+			h := n / 2
+			return []byte("\"" + strings.Repeat("a", h-2) + "\"" + strings.Repeat("//\n", (n-h)/3))
+		}},
 		{name: "json-nested-arrays", dec: "json.unmarshal", build: func(n int) []byte {
 			return []byte(strings.Repeat("[", n/2) + strings.Repeat("]", n/2))
 		}},
